@@ -29,7 +29,7 @@ theorem normalizedForBounds_of_norm : ∀ (cs0 : List (Constraint (Ext K))),
 analyzer of the pipeline computes (`an`), the objective and every constraint are in the fragment; user names do
 not start with `$`; the model fits the fuels of the Lean model. -/
 theorem compile_succeeds_pw {m : Model (Ext K)} {tol : Ext K} {maxSteps : Nat} {an : Analyzer (Ext K)}
-    (han : pipelineAnalyzer m tol maxSteps = some an) {W : Nat} (hW : 1 ≤ W) (hB : budget W ≤ flattenFuel)
+    (hscr : scratchOK m tol maxSteps) (han : pipelineAnalyzer m tol maxSteps = some an) {W : Nat} (hW : 1 ≤ W) (hB : budget W ≤ flattenFuel)
     (hnames : ∀ dv ∈ m.domain, SrcName dv.name)
     (hobj : ∃ o, normalizeExp m.objective = some o ∧ PW (Compile.toLinBounds an.variableBounds) o (objReq m) ∧ wt o ≤ W)
     (hcons : ∀ c ∈ m.constraints, SrcPW (Compile.toLinBounds an.variableBounds) W c)
@@ -42,7 +42,7 @@ theorem compile_succeeds_pw {m : Model (Ext K)} {tol : Ext K} {maxSteps : Nat} {
     rw [applyToVar_name]; exact hnames d0 hd0
   obtain ⟨lm, hlm⟩ := linearizeWith_succeeds_pw (m := m) (Compile.toLinBounds an.variableBounds)
     (an.applyToDomain m.domain) hW hB hnames' hobj hcons hfuel
-  exact ⟨lm, (compile_ok_iff _ _ _ _).mpr ⟨an, han, hlm⟩⟩
+  exact ⟨lm, (compile_ok_iff _ _ _ _).mpr ⟨hscr, an, han, hlm⟩⟩
 
 /-! ### non-vacuity: `min y  s.t.  c: |x| ≤ y`, `x ∈ [−1, 2]`, `y` free -/
 
